@@ -9,15 +9,16 @@ CHECKS=${@:-$P}
 SEED=${SEED_DIR:-/verif/seeded}/$ID
 MUT=$(mktemp -d /tmp/yldmut.XXXXXX)
 rmdir $MUT
+SCR=$(mktemp -d /tmp/yldmutscr.XXXXXX)
 git -C /repo worktree add -q --detach $MUT HEAD || exit 9
-trap 'git -C /repo worktree remove --force '$MUT' 2>/dev/null; git -C /repo worktree prune' EXIT
+trap 'git -C /repo worktree remove --force '$MUT' 2>/dev/null; git -C /repo worktree prune; rm -rf '$SCR EXIT
 cd $MUT || exit 9
 git apply $SEED/patch.diff 2>/dev/null || { echo "$ID PATCH-DOES-NOT-APPLY"; exit 8; }
 T=$(PYTHONPATH=$MUT/src /venv/bin/python -m pytest -q -p no:cacheprovider 2>&1 | tail -1)
 ( cd $MUT && PYTHONPATH=$MUT/src timeout 300 /venv/bin/python $SEED/demo.py >/dev/null 2>&1 ); D=$?
 R=""
 for C in $CHECKS; do
-  OUT=$(cd /verif && YLD_REPO=$MUT timeout 1200 /venv/bin/python -m harness.run $C 2>&1); RC=$?
+  OUT=$(cd /verif && YLD_REPO=$MUT VERIF_EVIDENCE_DIR=$SCR/evidence VERIF_REPLAY_DIR=$SCR/replays timeout 1200 /venv/bin/python -m harness.run $C 2>&1); RC=$?
   V=$(echo "$OUT" | grep -c "^VIOLATION")
   N=$(echo "$OUT" | grep -c "no-failing-input-found")
   R="$R $C:rc=$RC,viol=$V,nofail=$N"
